@@ -160,6 +160,25 @@ func RunHistory(rng *common.Rng, cfg Config) (*Run, error) {
 		return false
 	}
 	exec := func(o Op) (StepObs, error) {
+		if o.Kind == "cmd" && o.ByUID {
+			// the UID form needs the UIDs the client learnt for the chosen positions, and a mirror that is the session's view
+			o.UIDs = nil
+			if overtook[o.S] || staleSel[o.S] || selfReadd[o.S] || o.RO {
+				o.ByUID = false
+			}
+			for _, p := range o.Ps {
+				if p < 1 || p > len(mir[o.S].Cells) || mir[o.S].Cells[p-1].UID == 0 {
+					o.ByUID = false
+					break
+				}
+				o.UIDs = append(o.UIDs, mir[o.S].Cells[p-1].UID)
+			}
+			if !o.ByUID {
+				o.UIDs = nil
+			} else {
+				run.Stats["uid-form:"+o.Cmd]++
+			}
+		}
 		if mutating(o) && verifhook.Held(w.StateID[o.S]) > 0 {
 			overtook[o.S] = true
 			run.Stats["own-command-with-queued-updates"]++
@@ -500,6 +519,9 @@ func RunHistory(rng *common.Rng, cfg Config) (*Run, error) {
 						o.Ps = []int{1 + rng.Pick(len(m.Cells))}
 					}
 				}
+				if (o.Cmd == "search" || o.Cmd == "fetchbody") && rng.Chance(0.3) {
+					o.ByUID = true
+				}
 				if _, err := exec(o); err != nil {
 					return run, err
 				}
@@ -664,6 +686,12 @@ func RunHistory(rng *common.Rng, cfg Config) (*Run, error) {
 				o = Op{Kind: "conn", Cmd: "flag", Msg: msg, Flag: fl, Add: !has}
 			}
 		}
+		if o.Kind == "cmd" && rng.Chance(0.3) {
+			switch o.Cmd {
+			case "store", "copy", "move", "fetchbody", "fetchflagsbody", "search":
+				o.ByUID = true // resolved (or dropped) by exec
+			}
+		}
 		if cfg.Disciplined && o.Kind == "cmd" && o.Cmd == "select" {
 			for verifhook.Held(w.StateID[o.S]) > 0 {
 				if _, err := exec(Op{Kind: "deliver", S: o.S}); err != nil {
@@ -804,6 +832,12 @@ func (r *Run) CoqCase(id int) string {
 	for i, o := range r.Obs {
 		rs := make([]string, len(o.Out))
 		for j, x := range o.Out {
+			if i < len(r.Hist) && r.Hist[i].Cmd != "probe" {
+				// the UID form reports the UID with every FETCH response it causes - also with one that is held back and sent
+				// by a later command; the model's responses carry the UID for probes only (the client mirror above does
+				// check every reported UID against what it learnt)
+				x.UID = 0
+			}
 			rs[j] = x.Coq()
 		}
 		oc := o.Outcome
